@@ -277,6 +277,8 @@ func (fr *frame) sortSliceStable(x *ssa.Call, args []*Term, st *state) bool {
 	off := "(s_off " + s.S + ")"
 	oldA := "(select " + old + " (s_arr " + s.S + "))"
 	g.assert("(forall ((j Int)) (! (=> (and (<= 0 j) (< j " + n + ")) (and (<= 0 (" + perm + " j)) (< (" + perm + " j) " + n + ") (= (" + inv + " (" + perm + " j)) j) (= (select " + A + " (+ " + off + " j)) (select " + oldA + " (+ " + off + " (" + perm + " j)))))) :pattern ((" + perm + " j))))")
+	// the same fact over the absolute index (pattern: a plain select), for goals about an arbitrary element of the sorted range
+	g.assert("(forall ((j Int)) (! (=> (and (<= " + off + " j) (< j (+ " + off + " " + n + "))) (and (<= 0 (" + perm + " (- j " + off + "))) (< (" + perm + " (- j " + off + ")) " + n + ") (= (select " + A + " j) (select " + oldA + " (+ " + off + " (" + perm + " (- j " + off + "))))))) :pattern ((select " + A + " j))))")
 	g.assert("(forall ((j Int)) (! (=> (and (<= 0 j) (< j " + n + ")) (and (<= 0 (" + inv + " j)) (< (" + inv + " j) " + n + ") (= (" + perm + " (" + inv + " j)) j))) :pattern ((" + inv + " j))))")
 	g.assert("(forall ((j Int)) (! (=> (or (< j " + off + ") (>= j (+ " + off + " " + n + "))) (= (select " + A + " j) (select " + oldA + " j))) :pattern ((select " + A + " j))))")
 	fr.sortPerm = perm
